@@ -60,6 +60,16 @@ def replay_stub(chk, scalar, solname, api, sig, why):
                 if n_.startswith('iarg') and v_ is not None and abs(v_) < 10 ** 6 and int(v_) not in ivals:
                     ivals.append(int(v_))
             ivals += [x for x in (1, 2, 3, 0, -1, 4, 7) if x not in ivals]
+        # every call is repeated: an answer that depends on how often the stub was reached before (a warn-once flag, a message counter) is a
+        # path of the symbolic execution whose remembered state no single call reproduces.  The repetition count covers the integer values of
+        # the solver's model (the remembered counter on the violating path) and at least 300 calls.
+        reps = 300
+        for n_, v_ in (model or {}).items():
+            try:
+                if v_ is not None and 1 < abs(v_) < 5000 and not n_.startswith('iarg'):
+                    reps = max(reps, int(abs(v_)) + 2)
+            except Exception:
+                pass
         calls = []
         for iv in ivals:
             args = []
@@ -71,12 +81,12 @@ def replay_stub(chk, scalar, solname, api, sig, why):
                 else:
                     decl = '%s cbk(%s t){return t;}\n' % (cxx, cxx)
                     args.append('cbk')
-            calls.append(' { %s v = %s<%s>(%s); printf("\\nR v %%.25Lg\\n",(long double)v); printf("R is_sentinel %%d\\n", v == (%s)(-1.33)); }' % (cxx, api, cxx, ','.join(args), cxx))
+            calls.append(' for(int rep = 0; rep < %d; rep++) { %s v = %s<%s>(%s); printf("\\nR v %%.25Lg\\n",(long double)v); printf("R is_sentinel %%d\\n", v == (%s)(-1.33)); }' % (reps, cxx, api, cxx, ','.join(args), cxx))
         src = ('#include <masa.h>\n#include <cstdio>\nusing namespace MASA;\n%sint main(){ masa_init<%s>("h","%s");\n%s\n return 0;}\n') % (decl, cxx, solname, '\n'.join(calls))
         rc, out, err = chk.lib().run(src)
-        bad = (out.count('R is_sentinel 1') != len(calls)) or (out.count('MASA ERROR') < len(calls)) or rc != 0
+        bad = (out.count('R is_sentinel 1') != len(calls) * reps) or (out.count('MASA ERROR') < len(calls) * reps) or rc != 0
         if bad:
-            path = chk.save_replay(ob, dict(obligation=ob.name, solution=solname, api=api, sig=sig, integer_arguments_tried=ivals, stdout=out[-2000:], rc=rc, why=why), src)
+            path = chk.save_replay(ob, dict(obligation=ob.name, solution=solname, api=api, sig=sig, integer_arguments_tried=ivals, repetitions=reps, stdout=out[-2000:], rc=rc, why=why), src)
             return dict(reproduced=True, path=path, detail='%s<%s>(%s) on %s: %s' % (api, scalar, sig, solname, why))
         return dict(reproduced=False, path=None, detail='real library returns the sentinel and prints MASA ERROR')
     return replay
